@@ -135,7 +135,26 @@ def node_templates(ctx, adt, enum_fields):
             if isinstance(v, Adt):
                 m = re.search(r"\$self\.([A-Za-z_0-9]+)", repr(v))
                 if m and v.path and v.path.startswith("fun::syntax::terms::Term"):
-                    return docmodel.Doc([("sym", "$self." + m.group(1))])
+                    # a field whose variant a match has fixed: its parts are named <what it is>.<part>, so the common prefix of the
+                    # parts says whether this is the field or a value inside it (the term inside a Paren, say)
+                    whole = None
+                    names = []
+
+                    def part_names(x, prefix, depth=0):
+                        if isinstance(x, Sym) and x.name.startswith("self."):
+                            names.append((prefix, "$" + x.name))
+                        elif isinstance(x, Adt) and depth < 3:
+                            for fk, fv in x.fields.items():
+                                part_names(fv, prefix + [fk], depth + 1)
+                    part_names(v, [])
+                    owners = set()
+                    for prefix, nm_ in names:
+                        suffix = "." + ".".join(prefix)
+                        if nm_.endswith(suffix):
+                            owners.add(nm_[:-len(suffix)])
+                    if len(owners) == 1:
+                        whole = owners.pop()
+                    return docmodel.Doc([("sym", whole or "$self." + m.group(1))])
         if n in ("is_empty",) :
             v = I.deref(args[0])
             if isinstance(v, Sym):
